@@ -62,7 +62,7 @@ def fragments(rng, total, maxfrag, gap_choices):
 
 def gen_scenarios(tier, seed):
     rng = Rng(PROP, seed, "gen")
-    scale = 1 if tier == "quick" else 10
+    scale = 1 if tier == "quick" else 30
     out = []
     # A: read task, all flag choices, window geometry, fragmentation; peer closes at the end
     for i in range(90 * scale):
